@@ -37,6 +37,10 @@ pub struct Case {
     pub schedule: Vec<u8>,
     /// thorough tier: run the same threads free-running on all cores this many times
     pub stress_rounds: u16,
+    /// > 0: additionally run all write operations of the case on one thread, without any pausing, next to this
+    /// many free-running reader threads
+    #[serde(default)]
+    pub spin: u8,
 }
 
 pub struct C14;
@@ -503,6 +507,128 @@ fn run_controlled(st: &Store, u: &[MEvent], owned: &[pocket_types::OwnedEvent], 
     result.map(|_| log)
 }
 
+fn spin_phase(c: &Case, u: &[MEvent], panel: &[MFilter], out: &mut Outcome) -> Option<Fail> {
+    let wops: Vec<WOp> = c.threads.iter().flatten().filter(|o| is_write(o)).cloned().collect();
+    if wops.is_empty() {
+        return None;
+    }
+    let mut rops: Vec<WOp> = c.threads.iter().flatten().filter(|o| !is_write(o)).cloned().collect();
+    rops.extend((0..panel.len()).map(|q| WOp::Query(q as u8)));
+    rops.extend((0..u.len()).map(|i| WOp::GetById(i as u8)));
+    // serial reference: allowed[k][r] = answer of read r after the first k writes
+    let rw = match fresh_world(&c.initial, u) {
+        Ok(w) => w,
+        Err(f) => return Some(Fail { key: format!("C14:{}", f.key), detail: f.detail }),
+    };
+    let mut allowed: Vec<Vec<String>> = Vec::new();
+    let mut serial_results: Vec<String> = Vec::new();
+    for k in 0..=wops.len() {
+        allowed.push(rops.iter().map(|r| exec(rw.st(), u, &rw.owned, panel, r)).collect());
+        if k < wops.len() {
+            serial_results.push(exec(rw.st(), u, &rw.owned, panel, &wops[k]));
+        }
+    }
+    forget_stored(rw.st());
+    drop(rw);
+    let sw = match fresh_world(&c.initial, u) {
+        Ok(w) => w,
+        Err(f) => return Some(Fail { key: format!("C14:{}", f.key), detail: f.detail }),
+    };
+    let n_readers = c.spin as usize;
+    let done = std::sync::atomic::AtomicBool::new(false);
+    let barrier = std::sync::Barrier::new(n_readers + 1);
+    let (conc_results, observations): (Vec<String>, Vec<Vec<(usize, String)>>) = std::thread::scope(|scope| {
+        let st = sw.st();
+        let owned = &sw.owned;
+        let (done, barrier, rops, wops) = (&done, &barrier, &rops, &wops);
+        let slot = current_slot();
+        let readers: Vec<_> = (0..n_readers)
+            .map(|t| {
+                scope.spawn(move || {
+                    adopt_slot(slot);
+                    let mut obs: Vec<(usize, String)> = Vec::new();
+                    let _ = barrier.wait();
+                    let mut i = t * 5;
+                    loop {
+                        let finished = done.load(std::sync::atomic::Ordering::SeqCst);
+                        for _ in 0..rops.len() {
+                            let ri = i % rops.len();
+                            i += 1;
+                            obs.push((ri, exec(st, u, owned, panel, &rops[ri])));
+                        }
+                        if finished || obs.len() > 30_000 {
+                            break;
+                        }
+                    }
+                    obs
+                })
+            })
+            .collect();
+        let writer = scope.spawn(move || {
+            adopt_slot(slot);
+            let _ = barrier.wait();
+            // let the readers get going
+            std::thread::yield_now();
+            let r: Vec<String> = wops.iter().map(|op| exec(st, u, owned, panel, op)).collect();
+            done.store(true, std::sync::atomic::Ordering::SeqCst);
+            r
+        });
+        let w = writer.join().unwrap_or_default();
+        (w, readers.into_iter().map(|h| h.join().unwrap_or_default()).collect())
+    });
+    forget_stored(sw.st());
+    out.label("spin-readers");
+    if conc_results != serial_results {
+        return Some(Fail {
+            key: "C14:spin:single-writer-results-differ-from-serial".into(),
+            detail: format!("writes {:?}: next to free-running readers {:?}, alone {:?}", wops, conc_results, serial_results),
+        });
+    }
+    let mut saw_intermediate = false;
+    for (t, obs) in observations.iter().enumerate() {
+        let mut min_k = 0usize;
+        for (n, (ri, ans)) in obs.iter().enumerate() {
+            if ans.contains("PANIC") || ans.starts_with("err:") || ans.contains("WRONG-BYTES") || ans.contains("UNKNOWN") {
+                return Some(Fail {
+                    key: format!("C14:spin:read-failed:{}", ans.split(':').take(2).collect::<Vec<_>>().join(":")),
+                    detail: format!("reader {t}, read #{n} {:?} next to the writer {:?} returned {ans}", rops[*ri], wops),
+                });
+            }
+            match (min_k..=wops.len()).find(|k| allowed[*k][*ri] == *ans) {
+                Some(k) => {
+                    if k > 0 && k < wops.len() {
+                        saw_intermediate = true;
+                    }
+                    min_k = k;
+                }
+                None => {
+                    let ever = (0..=wops.len()).any(|k| allowed[k][*ri] == *ans);
+                    return Some(Fail {
+                        key: format!("C14:spin:{}:{}", if ever { "reads-go-back-in-time" } else { "read-matches-no-prefix" }, match &rops[*ri] {
+                            WOp::Query(q) => format!("query{q}"),
+                            WOp::GetById(_) => "get".to_string(),
+                            _ => "has".to_string(),
+                        }),
+                        detail: format!(
+                            "one thread executes {:?} without interruption; reader {t}'s read #{n} {:?} returned [{ans}], which is the answer after no prefix >= {min_k} of those writes (answers after 0..={} writes: {:?})",
+                            wops,
+                            rops[*ri],
+                            wops.len(),
+                            (0..=wops.len()).map(|k| allowed[k][*ri].clone()).collect::<Vec<_>>()
+                        ),
+                    });
+                }
+            }
+        }
+    }
+    if saw_intermediate {
+        out.label("spin-reader-saw-intermediate-state");
+        out.nontrivial = true;
+    }
+    drop(sw);
+    None
+}
+
 fn fresh_world(initial: &[u8], u: &[MEvent]) -> Result<World, Fail> {
     let mut w = World::new(0)?;
     w.events = u.to_vec();
@@ -520,7 +646,7 @@ impl Prop for C14 {
         "C14"
     }
     fn rule(&self) -> String {
-        "Cases: 2-4 threads x 1-3 operations each over a universe of 8 colliding events (a regular event, three versions of one replaceable address, two of one parameterised address, another author's event, a deletion request naming the regular event and the replaceable address): store (the same event from several threads, versions in any order), remove, get_event_by_id, has_event, and 9 queries covering every index plan incl. ids lists and ids+limit; 0-4 events stored beforehand; plus a schedule = vector of choices. A controller blocks every worker at every named point (op.begin, *.enter, *.txn, checked, preremoved, padded, mid-copy, copied, appended, indexed, deltag, precommit, committed, find.txn, find.range, get.enter, has.enter) and releases exactly one at a time according to the schedule, never into the LMDB writer lock while another worker holds it. Oracle: the writers are replayed serially on a fresh store in lock-acquisition order: every result class must equal the concurrent run's; every read must equal the same read on the replay store after k committed writers for some k between the number of commits when the read began and when it returned; final snapshots equal; of N submissions of one event exactly one succeeds unless it was removed in between; no read returns an error, unknown events or wrong bytes. The thorough tier also runs the same threads free-running on all cores and compares the final state with some serial order. Non-trivial: another thread ran while a writer was paused inside its transaction, or a commit happened while a read was in progress. Runs in the release profile with < 1 MiB of events (the event map never grows, see C15).".into()
+        "Cases: 2-4 threads x 1-3 operations each over a universe of 8 colliding events (a regular event, three versions of one replaceable address, two of one parameterised address, another author's event, a deletion request naming the regular event and the replaceable address): store (the same event from several threads, versions in any order), remove, get_event_by_id, has_event, and 9 queries covering every index plan incl. ids lists and ids+limit; 0-4 events stored beforehand; plus a schedule = vector of choices. A controller blocks every worker at every named point (op.begin, *.enter, *.txn, checked, preremoved, padded, mid-copy, copied, appended, indexed, deltag, precommit, committed, find.txn, find.range, get.enter, has.enter) and releases exactly one at a time according to the schedule, never into the LMDB writer lock while another worker holds it. Oracle: the writers are replayed serially on a fresh store in lock-acquisition order: every result class must equal the concurrent run's; every read must equal the same read on the replay store after k committed writers for some k between the number of commits when the read began and when it returned; final snapshots equal; of N submissions of one event exactly one succeeds unless it was removed in between; no read returns an error, unknown events or wrong bytes. One case in five is also run as 'one writer, three free-running readers' without any pausing: all write operations of the case on one thread, the readers looping over the case's reads, all 11 panel queries and get_event_by_id of every universe event; every answer must be the serial replay's answer after some prefix of the writes, and the prefixes one reader sees never decrease (no hook, no lock model involved). The thorough tier also runs the same threads free-running on all cores and compares the final state with some serial order. Non-trivial: another thread ran while a writer was paused inside its transaction, or a commit happened while a read was in progress. Runs in the release profile with < 1 MiB of events (the event map never grows, see C15).".into()
     }
     fn assumptions(&self) -> Vec<String> {
         vec![
@@ -549,7 +675,7 @@ impl Prop for C14 {
             prop::collection::vec(any::<u8>(), 0..40),
             Just(tier.pick(0u16, 3)),
         )
-            .prop_map(|(threads, initial, schedule, stress_rounds)| Case { threads, initial, schedule, stress_rounds });
+            .prop_map(|(threads, initial, schedule, stress_rounds)| Case { threads, initial, schedule, stress_rounds, spin: 0 });
         // scenario template: one reader running a multi-range query, one writer storing events that fall into
         // different ranges of that query (in scan order or reversed), optionally more threads
         // (query, events of its first-scanned range, events of a later range)
@@ -604,9 +730,14 @@ impl Prop for C14 {
                     sched.push((15 << 3) | if reader == 0 { 1 } else { 0 } | if spec { 0x80 } else { 0 });
                 }
                 sched.extend(schedule);
-                Case { threads, initial, schedule: sched, stress_rounds }
+                Case { threads, initial, schedule: sched, stress_rounds, spin: 0 }
             });
-        prop_oneof![3 => free, 2 => templated].boxed()
+        (prop_oneof![3 => free, 2 => templated], prop_oneof![4 => Just(0u8), 1 => Just(3u8)])
+            .prop_map(|(mut c, spin)| {
+                c.spin = spin;
+                c
+            })
+            .boxed()
     }
     fn label_floors(&self) -> Vec<(&'static str, f64)> {
         vec![("writer-overlapped", 0.3), ("commit-during-read", 0.1), ("same-event-from-two-threads", 0.05)]
@@ -776,6 +907,16 @@ impl Prop for C14 {
         forget_stored(w.st());
         drop(rw);
         drop(w);
+
+        // ---- one writer, free-running readers: no pausing, no knowledge of where the code takes locks. The write
+        // order is the program order of the single writer, so every answer a reader gets must be the answer of the
+        // serial replay after some prefix of it, and the prefixes one reader sees never go backwards.
+        if c.spin > 0 {
+            if let Some(f) = spin_phase(c, &u, &panel, &mut out) {
+                out.fail(f.key, f.detail);
+                return out;
+            }
+        }
 
         // ---- thorough: free-running stress of the same threads
         for round in 0..c.stress_rounds {
